@@ -12,6 +12,7 @@ package main
 
 import (
 	"bufio"
+	"bytes"
 	"encoding/json"
 	"flag"
 	"fmt"
@@ -1311,6 +1312,9 @@ func sizeCases(quick bool) []deepCase {
 			if quick && (ti == 1 || ti == 7) && (ln+sd)%2 == 0 {
 				continue
 			}
+			if ln > 300 {
+				break
+			}
 			// all 14 (Width, Align) settings, spread over cases of 4-5 settings each; MaxDepth 3 and 1
 			for part := 0; part < 3; part++ {
 				ps := []pcfg{}
@@ -1325,6 +1329,43 @@ func sizeCases(quick bool) []deepCase {
 				res = append(res, deepCase{t, oset[(n+sd)%len(oset)], ps})
 			}
 		}
+	}
+	// lengths around every buffer constant of the writers (InitSize 256, the 1024-byte initial buffers and the default
+	// WriteLimit 1024, 4096 = the readers' buffer and a natural block size): raw lengths N-2..N+2 and lengths whose ESCAPED
+	// form crosses N while the raw form does not (control characters: 6 bytes each, quotes: 2 bytes each); as top-level
+	// value, and as array element + member value + key in one tree
+	type big struct {
+		n int
+		c byte
+	}
+	var bigs []big
+	for _, N := range []int{256, 1024, 4096} {
+		for d := -2; d <= 2; d++ {
+			if quick && N == 1024 && (d == -2 || d == 2) {
+				continue
+			}
+			bigs = append(bigs, big{N + d, 'v'})
+		}
+		for _, e := range []int{(N - 2) / 6, (N-2)/6 + 1} {
+			bigs = append(bigs, big{e, 1}) // \u0001 x e: 6e+2 encoded bytes around N
+		}
+		bigs = append(bigs, big{(N - 2) / 2, '"'}, big{(N-2)/2 + 1, '"'})
+	}
+	if !quick {
+		bigs = append(bigs, big{700, 1}, big{10000, 'v'}, big{8190, 'v'}, big{8193, 'v'}, big{70000, 'v'})
+	}
+	for bi, b := range bigs {
+		sv := sized(b.n, b.c)
+		if b.c != 'v' {
+			sv = string(bytes.Repeat([]byte{b.c}, b.n))
+		}
+		kk := sv
+		if len(kk) > 1 {
+			kk = "k" + kk[1:]
+		}
+		ps := []pcfg{{W: 80, D: 3, Al: bi%2 == 0}, {W: 1000, D: 2, Al: bi%2 == 1}}
+		res = append(res, deepCase{aStr(sv), oset[(bi+sd)%len(oset)], ps[:1]})
+		res = append(res, deepCase{aArr(aStr(sv), aObj(kk, aInt(1), "a", aStr(sv))), oset[(bi+sd+1)%len(oset)], ps})
 	}
 	return res
 }
